@@ -51,6 +51,7 @@ NAMES = [
     b"refs/heads/a/c",
     b"refs/remotes/o/HEAD",
     b"refs/heads-o/x",  # shares the byte prefix b"refs/heads" with the base of that name, not the path component
+    b"refs/heads/a/b/c",  # three levels: a refused/failed operation on it leaves nested empty directories where a and a/b go
 ]
 SYMSRC = [b"refs/heads/sym", b"HEAD", b"refs/heads/sym2", b"refs/remotes/o/HEAD"]
 SYMDST = [b"refs/heads/a", b"refs/heads/b", b"refs/heads/sym", b"refs/heads/sym2", b"refs/tags/t", b"refs/heads/a/b"]
